@@ -841,7 +841,11 @@ class AdapterLookupBase:
             if not extendors:
                 continue
 
-            components = byorder[order]
+            try:
+                components = byorder[order]
+            except IndexError:
+                # Emptied by another thread since the length check.
+                continue
             result = _lookup(components, required, extendors, name, 0,
                              order)
             if result is not None:
@@ -875,7 +879,11 @@ class AdapterLookupBase:
             extendors = registry._v_lookup._extendors.get(provided)
             if not extendors:
                 continue
-            components = byorder[order]
+            try:
+                components = byorder[order]
+            except IndexError:
+                # Emptied by another thread since the length check.
+                continue
             _lookupAll(components, required, extendors, result, 0, order)
 
         self._subscribe(*required)
@@ -901,7 +909,12 @@ class AdapterLookupBase:
                 if extendors is None:
                     continue
 
-            _subscriptions(byorder[order], required, extendors, '',
+            try:
+                components = byorder[order]
+            except IndexError:
+                # Emptied by another thread since the length check.
+                continue
+            _subscriptions(components, required, extendors, '',
                            result, 0, order)
 
         self._subscribe(*required)
